@@ -15,6 +15,12 @@
 (*    history (run kind "canon", the first run of each history) and with   *)
 (*    the plain delivery of the same chain from the starting state (run    *)
 (*    kind "direct") for the rest.                                         *)
+(*  - the relevant transactions may depend on each other (dep: commitment  *)
+(*    <- second-stage HTLC transaction <- claim on it), packed into one    *)
+(*    block or spread; the conclusions about every member of such a chain  *)
+(*    (still watched while unburied, balances, claims, events) are judged  *)
+(*    like those about any other role: a delivery in which an in-block     *)
+(*    descendant was overlooked differs from F(chain) and from the others. *)
 (***************************************************************************)
 EXTENDS ChainView, Json, IOUtils
 
@@ -84,7 +90,7 @@ AllGood == [hist |-> TRUE, best |-> TRUE, funding |-> TRUE, listed |-> TRUE, clo
 TraceInit ==
   /\ l = 1
   /\ nb = 0 /\ parent = <<>> /\ txin = <<>> /\ has = {} /\ minh = [r \in Roles |-> 0]
-  /\ fundingRole = FALSE /\ target = 0
+  /\ fundingRole = FALSE /\ dep = [q \in Roles |-> 0] /\ target = 0
   /\ tp = [o \in Objs |-> 0] /\ cf = [o \in Objs |-> NoConf]
   /\ ifc = [o \in Objs |-> "none"] /\ gv = [o \in Objs |-> FALSE]
   /\ phase = "dead" /\ kind = "" /\ histId = 0 /\ failTrig = <<>> /\ baseConf = 0 /\ inputs = <<>>
@@ -106,6 +112,9 @@ TReset ==
      /\ has' = Roles
      /\ minh' = [q \in Roles |-> r.minh[q]]
      /\ fundingRole' = r.funding_role
+     /\ dep' = [q \in Roles |-> r.dep[q]]
+     \* the transactions of a block are in an order a block can have: none precedes the one it spends
+     /\ \A b \in 1..n : \A i, j \in 1..Len(r.txs[b]) : r.dep[r.txs[b][j]] = r.txs[b][i] => i < j
      /\ kind' = r.kind /\ histId' = r.hist
      /\ failTrig' = r.failtrig /\ baseConf' = r.base_conf /\ inputs' = r.inputs /\ minDepth' = r.min_depth
      /\ tlOuts' = ToSet(r.tl_outs) /\ tlHeight' = r.tl_height
@@ -160,6 +169,7 @@ TTxs ==
   /\ IsEvent("txs") /\ phase = "moving"
   /\ LET o == Rec[l].who b == Rec[l].b sel == ToSet(Rec[l].sel) IN
      /\ CanTxs(cf[o], ifc[o], b, sel)
+     /\ TopoSeq(Rec[l].sel)      \* "dependent transactions within the same block must be given in topological order"
      /\ cf' = Upd(cf, o, ConfAfterTxs(cf[o], b, sel)) /\ ifc' = Upd(ifc, o, "confirm") /\ gv' = Upd(gv, o, TRUE)
      /\ lastH1' = IF o = "mon" /\ 1 \in sel THEN Height(b) ELSE lastH1
      /\ lowered' = (lowered \/ (o = "mon" /\ 1 \in sel /\ lastH1 > Height(b)))
@@ -252,8 +262,11 @@ TSync ==
                                    \/ (fundingRole /\ \E b \in readyAt : Place(1, target) # b))
      /\ LET lostIn == IF pre /\ ~ov /\ Place(1, target) # None
                        THEN {op \in in1Out : ~SpentInChain(op) /\ op \notin AllClaimed(r.R.claims)} ELSE {}
+            \* the balance of a revoked output exists only while the claim on it is pending: it is lost with the
+            \* claim (class A: claims on the outputs of the re-confirmed commitment)
+            wb == WaiveA /\ lowered /\ ((cmp /\ r.R.balc # c.R.balc) \/ (hasDirect /\ r.R.balc # d.R.balc))
             w == {op \in (IF cmp THEN diffClaims ELSE {}) \cup (IF hasDirect THEN dClaims \ rl ELSE {}) \cup lostIn : Waived(op)}
-        IN  w # {} => PrintT(<<"WAIVED", r.run, i, UNION {ClassesOf(op) : op \in w}>>)
+        IN  (w # {} \/ wb) => PrintT(<<"WAIVED", r.run, i, UNION {ClassesOf(op) : op \in w} \cup (IF wb THEN {"A"} ELSE {})>>)
      /\ v' = [hist |-> (kind = "sched" => hasCanon),
               best |-> (BestBlockIs(f.mbest) /\ BestBlockIs(f.gbest)),
               funding |-> (ov \/ f.conf < 0 \/ FundingDepthIs(f.conf, baseConf)),
@@ -266,14 +279,14 @@ TSync ==
               relevant |-> (ov \/ (RelevantOK(f.mrel) /\ RelevantOK(f.grel))),
               remembers |-> (ov \/ RemembersOK(f.mrel, ever)),
               irrev |-> (ov \/ IrreversibleOK(f.irrev, failTrig, ever)),
-              aBal |-> (cmp => r.R.bal = c.R.bal),
+              aBal |-> (cmp => (r.R.bal = c.R.bal /\ (r.R.balc = c.R.balc \/ (WaiveA /\ lowered)))),
               aRel |-> (cmp => (r.R.mrel = c.R.mrel /\ r.R.grel = c.R.grel)),
               aClaims |-> (cmp => \A op \in diffClaims : Waived(op)),
               aChans |-> (cmp => r.R.chans = c.R.chans),
               aEvents |-> (cmp => r.S.evs = c.S.evs),
               aMsgs |-> (cmp => r.S.msgs = c.S.msgs),
               retract |-> (hasDirect =>
-                             /\ r.R.bal = d.R.bal
+                             /\ r.R.bal = d.R.bal /\ (r.R.balc = d.R.balc \/ (WaiveA /\ lowered))
                              /\ Pairs(f.mrel) = Pairs(d.f.mrel)
                              \* everything a fresh delivery of this chain claims is (again) being claimed; a
                              \* claim made while the chain was higher may legitimately still be pending
